@@ -130,11 +130,42 @@ func ruleC10TableIndex(c *Ctx) {
 // as a method receiver needs a nil test or the listener's "no error so far" guard.
 func ruleC10NilRecv(c *Ctx) {
 	p := c.P
-	pops := map[*types.Func]bool{}
-	for _, m := range []string{"popNode", "popSymbolNode"} {
-		pops[p.Method("ast", "ToBoltListener", m)] = true
-	}
 	hasErr := p.Method("ast", "ToBoltListener", "HasError")
+	setErr := p.Method("ast", "ToBoltListener", "SetError")
+	// the pop helpers, by what they do: a function of the listener (method, or free/generic function handed the
+	// listener) that consults the error latch, takes something off the stack, tests its type with the comma-ok
+	// form, latches an error when the test fails, and hands back a value that can be nil
+	pops := map[*ssa.Function]bool{}
+	for _, fn := range c.prodFuncs("ast") {
+		res := fn.Signature.Results()
+		if res.Len() == 0 || res.Len() > 2 || len(fn.Params) == 0 || namedOf(fn.Params[0].Type()) != p.Named("ast", "ToBoltListener") {
+			continue
+		}
+		switch types.Unalias(res.At(0).Type()).Underlying().(type) {
+		case *types.Interface, *types.Pointer:
+		default:
+			if _, isTP := types.Unalias(res.At(0).Type()).(*types.TypeParam); !isTP {
+				continue
+			}
+		}
+		latch, sets, asserts := false, false, false
+		for _, b := range fn.Blocks {
+			for _, in := range b.Instrs {
+				if isCallTo(in, hasErr) {
+					latch = true
+				}
+				if isCallTo(in, setErr) {
+					sets = true
+				}
+				if ta, isTA := in.(*ssa.TypeAssert); isTA && ta.CommaOk {
+					asserts = true
+				}
+			}
+		}
+		if latch && sets && asserts {
+			pops[fn] = true
+		}
+	}
 	n := 0
 	for _, fn := range c.prodFuncs("ast") {
 		var fi *FactInfo
@@ -154,7 +185,11 @@ func ruleC10NilRecv(c *Ctx) {
 				continue
 			}
 			cal, _ := calleeOf(src.Common())
-			if cal == nil || !pops[cal] {
+			sc := src.Common().StaticCallee()
+			if sc != nil && sc.Origin() != nil {
+				sc = sc.Origin()
+			}
+			if cal == nil || sc == nil || !pops[sc] {
 				continue
 			}
 			if fi == nil {
@@ -169,7 +204,7 @@ func ruleC10NilRecv(c *Ctx) {
 				}
 				// the helper's own "found" flag, when it is false whenever the node is nil
 				if ex, isEx := f.V.(*ssa.Extract); isEx && f.Pol && ex.Index == 1 && ex.Tuple == ssa.Value(src) {
-					return flagMeansNonNil(p.SSAFunc(cal))
+					return flagMeansNonNil(sc)
 				}
 				if f.Pol {
 					return false
